@@ -170,7 +170,11 @@ def apply_real(S, op):
     elif name == "set_node_attributes":
         S.set_node_attributes(setattr_arg(op), name=op[3])
     elif name == "add_simplex":
-        S.add_simplex(nets.container(op[2], op[1]), idx=op[3], **copy.deepcopy(op[4]))
+        c = nets.container(op[2], op[1])
+        try:
+            S.add_simplex(c, idx=op[3], **copy.deepcopy(op[4]))
+        finally:
+            nets.scribble_after(c)
     elif name == "add_edge":
         S.add_edge(nets.container(op[2], op[1]), **copy.deepcopy(op[4]))
     elif name == "add_simplices_from":
@@ -188,9 +192,9 @@ def apply_real(S, op):
     elif name == "remove_edge":
         S.remove_edge(op[1])
     elif name == "remove_simplex_ids_from":
-        S.remove_simplex_ids_from(list(op[1]))
+        S.remove_simplex_ids_from(nets.bunch(op[1]))
     elif name == "remove_edges_from":
-        S.remove_edges_from(list(op[1]))
+        S.remove_edges_from(nets.bunch(op[1]))
     elif name == "close":
         S.close()
     elif name == "cleanup":
